@@ -162,6 +162,129 @@ def run_single(manifest, order):
     return viol, facts
 
 
+# ---------------------------------------------------------------------------
+# command-failure injection in the finish slice
+
+MAX_FINISH_ATTEMPTS = 4
+
+
+def fault_manifests(quick):
+    """Reduced manifest menus whose finish is re-run with every single
+    external command failing once."""
+    e1, e2 = endpoint_lists(1), endpoint_lists(2)
+    if quick:
+        eps = e1 + [
+            [('e1', 'tcp', 0, 'infra'), ('e1', 'udp', 8000, 'infra')],
+            [('e1', 'tcp', 22, None), ('e2', 'tcp', 8000, 'infra')],
+            [('e1', 'udp', 0, None), ('e2', 'udp', 22, 'infra')],
+        ]
+        ephs = [(0, 0), (1, 0), (0, 1), (2, 1)]
+        pts = [[], ['h1', 'h3']]
+    else:
+        eps = e2
+        ephs = [(0, 0), (1, 0), (0, 1), (2, 1)]
+        pts = [[], ['h1'], ['h1', 'h3']]
+    out = []
+    for ep in eps:
+        for eph in ephs:
+            for pt in pts:
+                for vr in (False, True):
+                    out.append(W.manifest(endpoints_=ep, eph=eph,
+                                          passthrough=pt, vring=vr))
+    return out
+
+
+def _finish_until_done(host, manifest):
+    """Repeat finish until an attempt ends without an exception.
+    Returns (completed?, [exceptions of the aborted attempts])."""
+    aborted = []
+    for _ in range(MAX_FINISH_ATTEMPTS):
+        try:
+            host.finish(manifest)
+            return True, aborted
+        except Exception as exc:  # pylint: disable=broad-except
+            aborted.append(_exc(exc))
+    return False, aborted
+
+
+def run_fault(manifest, order, k):
+    """Fresh host, start, finish with external command number k failing
+    once, finish repeated until it completes.  Returns (violations, facts);
+    k=None only counts the fault points."""
+    host = W.Host(port_order=order)
+    s0 = host.snapshot()
+    host.start(manifest)
+    s1 = host.snapshot()
+    W.FAULT.arm(k)
+    done, aborted = _finish_until_done(host, manifest)
+    fired = W.FAULT.fired
+    points = W.FAULT.n
+    W.FAULT.arm(None)
+    facts = {'points': points, 'fired': fired, 'aborted': len(aborted),
+             'registered': len(s1 - s0)}
+    viol = []
+    if k is not None and fired is None:
+        raise statex.HarnessError('fault point %r never reached (%r)'
+                                  % (k, manifest))
+    cmd = 'no failed command' if fired is None else \
+        'failed %s %s' % (fired[0], ' '.join(fired[1]) if
+                          isinstance(fired[1], (list, tuple)) else fired[1])
+    if not done:
+        viol.append(('finish-does-not-complete-after-failed-command',
+                     '_finish._cleanup_network after ' + cmd,
+                     {'fault_point': k, 'attempts': aborted}))
+    s2 = host.snapshot()
+    for item in sorted(s2 - s0):
+        viol.append(('finish-left-registration-behind-after-failed-command',
+                     '_finish._cleanup_network:%s after %s'
+                     % (W.kind_of(item), cmd),
+                     {'left': item, 'fault_point': k, 'failed': cmd,
+                      'aborted_attempts': aborted,
+                      'attempts_until_completion': len(aborted) + 1}))
+    for item in sorted(s0 - s2):
+        viol.append(('finish-removed-registration-of-another-container',
+                     '_finish._cleanup_network:' + W.kind_of(item),
+                     {'removed': item, 'fault_point': k}))
+    return viol, facts
+
+
+def fault_worker(chunk):
+    _k, quick, lo, hi = chunk
+    out = {'cases': 0, 'nontrivial': 0, 'states': 0, 'violations': [],
+           'samples': [], 'counters': {}}
+    cnt = out['counters']
+    seen = {}
+    for manifest in fault_manifests(quick)[lo:hi]:
+        viol, facts = run_fault(manifest, 'identity', None)
+        n = facts['points']
+        cnt['fault_manifests'] = cnt.get('fault_manifests', 0) + 1
+        cnt['fault_points'] = cnt.get('fault_points', 0) + n
+        runs = [(None, viol, facts)]
+        for k in range(n):
+            v, f = run_fault(manifest, 'identity', k)
+            runs.append((k, v, f))
+            cnt['fault_runs'] = cnt.get('fault_runs', 0) + 1
+            cnt['fault_aborted_attempts'] = \
+                cnt.get('fault_aborted_attempts', 0) + f['aborted']
+            if f['aborted'] == 0:
+                cnt['fault_swallowed_by_the_code'] = \
+                    cnt.get('fault_swallowed_by_the_code', 0) + 1
+            key = 'fault in %s' % (f['fired'][0],)
+            cnt[key] = cnt.get(key, 0) + 1
+        for k, v, _f in runs:
+            for clause, site, detail in v:
+                key = (clause, site)
+                if key not in seen:
+                    seen[key] = {
+                        'clause': clause, 'site': site, 'detail': detail,
+                        'count': 0,
+                        'replay': {'part': 'fault', 'manifest': manifest,
+                                   'order': 'identity', 'fault': k}}
+                seen[key]['count'] += 1
+    out['violations'] = list(seen.values())
+    return out
+
+
 def sweep_worker(chunk):
     out = {'cases': 0, 'nontrivial': 0, 'states': 0, 'violations': [],
            'samples': [], 'counters': {}}
@@ -430,6 +553,8 @@ def pair_worker(chunk):
 def worker(chunk):
     if chunk[0] == 'sweep':
         return sweep_worker(chunk)
+    if chunk[0] == 'fault':
+        return fault_worker(chunk)
     return pair_worker(chunk)
 
 
@@ -437,6 +562,11 @@ def worker(chunk):
 
 def observe(rp):
     """Re-run one recorded case; (sorted violation keys, digest)."""
+    if rp['part'] == 'fault':
+        viol, facts = run_fault(rp['manifest'], rp['order'], rp['fault'])
+        keys = sorted({(c, s) for c, s, _d in viol})
+        vs = [{'clause': c, 'site': s, 'detail': d} for c, s, d in viol]
+        return keys, repr((keys, facts)), vs
     if rp['part'] == 'sweep':
         viol, facts = run_single(rp['manifest'], rp['order'])
         keys = sorted({(c, s) for c, s, _d in viol})
@@ -481,12 +611,19 @@ def _run(ctx, t0):
     step = 4
     for lo in range(0, npairs, step):
         chunks.append(('pair', ctx.quick, lo, min(npairs, lo + step)))
+    nfault = len(fault_manifests(ctx.quick))
+    fstep = 6
+    for lo in range(0, nfault, fstep):
+        chunks.append(('fault', ctx.quick, lo, min(nfault, lo + fstep)))
     sw = boundx.sweep(chunks, worker, workers=ctx.workers,
                       time_cap=ctx.budget_s * 0.9)
     c = sw.counters
     if sw.nontrivial == 0 or c.get('finish_while_other_registered', 0) == 0 \
             or c.get('repeated_finish_while_other_registered', 0) == 0 \
-            or c.get('udp_start_next_to_udp_holder', 0) == 0:
+            or c.get('udp_start_next_to_udp_holder', 0) == 0 \
+            or c.get('fault_aborted_attempts', 0) == 0 \
+            or c.get('fault in subproc', 0) == 0 \
+            or c.get('fault in unlink', 0) == 0:
         raise statex.HarnessError('vacuous run: %r' % (dict(c),))
     for k in ('with rules/dnat', 'with rules/snat', 'with rules/passthrough',
               'with endpoints/spec', 'with ipset/tm:vring-containers',
@@ -498,13 +635,17 @@ def _run(ctx, t0):
         confirm(v)
     doms = domains(ctx.quick)
     sweep_cases = sw.cases - npairs
+    fault_runs = c.get('fault_runs', 0) + c.get('fault_manifests', 0)
     cov = {
-        'states': sweep_cases + c.get('pair_states', 0),
-        'transitions': 3 * sweep_cases + c.get('pair_transitions', 0),
-        'executions': sweep_cases + c.get('pair_transitions', 0),
+        'states': sweep_cases + c.get('pair_states', 0) +
+        c.get('fault_points', 0),
+        'transitions': 3 * sweep_cases + c.get('pair_transitions', 0) +
+        2 * fault_runs + c.get('fault_aborted_attempts', 0),
+        'executions': sweep_cases + c.get('pair_transitions', 0) + fault_runs,
         'traces_validated_against_impl':
-            sweep_cases + c.get('pair_transitions', 0),
-        'evaluations': sweep_cases + c.get('pair_transitions', 0),
+            sweep_cases + c.get('pair_transitions', 0) + fault_runs,
+        'evaluations': sweep_cases + c.get('pair_transitions', 0) +
+        fault_runs,
         'distinct_nontrivial': sw.nontrivial,
         'rule': RULE,
         'samples': sw.samples[:6],
@@ -551,6 +692,21 @@ def _run(ctx, t0):
                 c.get('udp_start_next_to_udp_holder', 0),
             'both_finished': c.get('both_finished', 0),
             'starts_that_raised': c.get('start_raised', 0),
+        },
+        'faults': {
+            'what': 'for every manifest of the fault menu: one run counting '
+                    'the external commands of the finish, then one run per '
+                    'command with exactly that command failing once; finish '
+                    'is repeated until an attempt ends without exception',
+            'manifests': c.get('fault_manifests', 0),
+            'fault_points': c.get('fault_points', 0),
+            'runs_with_one_failed_command': c.get('fault_runs', 0),
+            'aborted_finish_attempts': c.get('fault_aborted_attempts', 0),
+            'failures_the_code_swallowed':
+                c.get('fault_swallowed_by_the_code', 0),
+            'by_kind': {k[9:]: v for k, v in sorted(c.items())
+                        if k.startswith('fault in ')},
+            'max_finish_attempts': MAX_FINISH_ATTEMPTS,
         },
         'chunks': '%d/%d' % (sw.chunks_done, sw.chunks_total),
     }
@@ -604,6 +760,13 @@ ASSUMPTIONS = [
     'in this environment)',
     'host names resolve identically at start and at finish (the FIXME in '
     '_cleanup_network is an environment assumption, not explored)',
+    'command failures: every ipset / conntrack invocation reaching the fake '
+    'subproc, every unlink of a rule or endpoint-spec file and the network '
+    'service delete issued by _cleanup_network is a fault point; exactly one '
+    'of them fails once per run (CalledProcessError rc 2 resp. OSError EIO), '
+    'the attempt ends the way the real code ends it and finish is repeated '
+    'until an attempt completes; failures of network_client.get, of reading '
+    'state.json and double failures are not injected',
     'every host starts with registrations of a foreign container (DNAT, SNAT, '
     'passthrough rule, endpoint spec, vring and infra ip-set entries) that '
     'must survive',
